@@ -1,3 +1,612 @@
-(* Proofs about the value-type API model (Codec/ValueApi.v): placeholder, filled in below *)
-From Coq Require Import List NArith Bool.
-From Rustun Require Import Base.Tlv Codec.AttrValue Codec.ValueApi.
+(* Proofs about the value-type API model (Codec/ValueApi.v), property C19:
+   (a) no modelled function reaches a panic site, for every argument of its argument type;
+   (b) the functional facts that make the model more than "total": MessageType from / as_u16 on all 16,384 pairs and the
+       two ignored bits, ErrorCode accepts exactly 300..699 and class * 100 + number = code, bounded ICMP integers, array
+       conversions accept exactly the documented length, UnknownAttributes::add idempotent / order-preserving / duplicate
+       free, nonce cookies carry the flags they were built with;
+   (c) agreement with the codec models (AttrValue / Message / Tlv): the values these constructors build are the ones the
+       typed encoders write and the typed decoders return. *)
+From Coq Require Import List NArith ZArith Lia Bool Arith ZifyBool ZifyN.
+Import ListNotations.
+From Rustun Require Import Base.Tlv Crypto.Sha256 Crypto.Sha1Md5 Codec.AttrValue Codec.MsgType Codec.Message Codec.Keys Codec.ValueApi.
+From Rustun Require Import Proofs.AttrValueProofs Proofs.CryptoLen.
+Open Scope N_scope.
+Ltac Zify.zify_post_hook ::= Z.div_mod_to_equations.
+
+(* ------------------------------------------------------------------------------------------ generic *)
+Lemma va_bind_np {A B} (r:vres A) (f:A -> vres B) :
+  r <> VPanic -> (forall a, r = VOk a -> f a <> VPanic) -> av_bind r f <> VPanic.
+Proof. exact (av_bind_np r f). Qed.
+
+Lemma va_array_from_slice_exact n b : va_array_from_slice n b = VOk b <-> len b = n.
+Proof. unfold va_array_from_slice. destruct (N.eqb_spec (len b) n); split; intros; try reflexivity; try assumption; try discriminate; contradiction. Qed.
+Lemma va_array_from_slice_other n b : len b <> n -> va_array_from_slice n b = VErr.
+Proof. unfold va_array_from_slice. destruct (N.eqb_spec (len b) n); [contradiction|reflexivity]. Qed.
+Lemma va_array_from_slice_np n b : va_array_from_slice n b <> VPanic.
+Proof. unfold va_array_from_slice. destruct (_ =? _); discriminate. Qed.
+
+(* ------------------------------------------------------------------------------------------ message type *)
+Lemma land_idem v m : N.land (N.land v m) m = N.land v m.
+Proof. rewrite <- N.land_assoc, N.land_diag. reflexivity. Qed.
+Lemma va_msgtype_from_mask v : va_msgtype_from v = va_msgtype_from (N.land v 0x3FFF).
+Proof. unfold va_msgtype_from. rewrite land_idem. reflexivity. Qed.
+Lemma of_u16_mask v : of_u16 v = of_u16 (N.land v 0x3FFF).
+Proof. unfold of_u16. rewrite land_idem. reflexivity. Qed.
+
+Definition mt_check (w:N) : bool :=
+  match va_msgtype_from w with
+  | VOk (m, c) => (m <? 4096) && (c <? 4) && (va_msgtype_as_u16 m c =? w)
+                  && (let '(m', c') := of_u16 w in (m' =? m) && (c' =? c))
+  | _ => false
+  end.
+Lemma mt_check_all : forall_bits 14 mt_check = true.
+Proof. vm_compute. reflexivity. Qed.
+Lemma land_3fff_lt v : N.land v 0x3FFF < 2 ^ N.of_nat 14.
+Proof. change 0x3FFF with (N.ones 14). rewrite N.land_ones. apply N.mod_lt. discriminate. Qed.
+
+Theorem va_msgtype_from_spec v :
+  exists m c, va_msgtype_from v = VOk (m, c) /\ m < 4096 /\ c < 4 /\
+              va_msgtype_as_u16 m c = N.land v 0x3FFF /\ of_u16 v = (m, c).
+Proof.
+  pose proof (forall_bits_spec 14 mt_check mt_check_all _ (land_3fff_lt v)) as H.
+  unfold mt_check in H. rewrite <- va_msgtype_from_mask, <- of_u16_mask in H.
+  destruct (va_msgtype_from v) as [[m c]| | |]; try discriminate.
+  destruct (of_u16 v) as [m' c'].
+  apply andb_prop in H as [H H4]. apply andb_prop in H as [H H3]. apply andb_prop in H as [H1 H2].
+  apply andb_prop in H4 as [H4 H5].
+  apply N.ltb_lt in H1, H2. apply N.eqb_eq in H3, H4, H5. subst.
+  exists m, c. repeat split; auto.
+Qed.
+Theorem va_msgtype_from_np v : va_msgtype_from v <> VPanic.
+Proof. destruct (va_msgtype_from_spec v) as (m & c & -> & _). discriminate. Qed.
+Theorem va_msgtype_roundtrip m c : m < 4096 -> c < 4 -> va_msgtype_from (va_msgtype_as_u16 m c) = VOk (m, c).
+Proof.
+  intros Hm Hc. destruct (va_msgtype_from_spec (va_msgtype_as_u16 m c)) as (m' & c' & E & _ & _ & _ & E2).
+  unfold va_msgtype_as_u16 in *. destruct (C02_msg_type m c Hm Hc) as [_ R]. rewrite R in E2. injection E2 as <- <-. exact E.
+Qed.
+Theorem va_msgtype_as_u16_from v m c : va_msgtype_from v = VOk (m, c) -> va_msgtype_as_u16 m c = N.land v 0x3FFF.
+Proof. destruct (va_msgtype_from_spec v) as (m' & c' & -> & _ & _ & E & _). intros H. injection H as <- <-. exact E. Qed.
+Theorem va_msgtype_from_bytes_np b : len b = 2 -> va_msgtype_from_bytes b <> VPanic.
+Proof.
+  intros H. unfold va_msgtype_from_bytes. destruct (av_rd16_ok b) as (n & ->); [lia|]. cbn [av_bind]. apply va_msgtype_from_np.
+Qed.
+
+Definition vres_eqb_n (a b:vres N) : bool :=
+  match a, b with VOk x, VOk y => x =? y | VErr, VErr => true | VPanic, VPanic => true | VUnmodelled, VUnmodelled => true | _, _ => false end.
+Lemma vres_eqb_n_eq a b : vres_eqb_n a b = true -> a = b.
+Proof. destruct a, b; cbn; try discriminate; try reflexivity. intros H. apply N.eqb_eq in H. subst. reflexivity. Qed.
+Lemma two16 : 2 ^ N.of_nat 16 = 65536. Proof. reflexivity. Qed.
+Lemma two8 : 2 ^ N.of_nat 8 = 256. Proof. reflexivity. Qed.
+
+Definition method_check (v:N) : bool := vres_eqb_n (va_method_try_from v) (if v <? 4096 then VOk v else VErr).
+Lemma method_check_all : forall_bits 16 method_check = true. Proof. vm_compute. reflexivity. Qed.
+Theorem va_method_try_from_spec v : v < 65536 -> va_method_try_from v = if v <? 4096 then VOk v else VErr.
+Proof. intros H. apply vres_eqb_n_eq. apply (forall_bits_spec 16 method_check method_check_all). rewrite two16. exact H. Qed.
+Theorem va_method_try_from_np v : va_method_try_from v <> VPanic.
+Proof. unfold va_method_try_from. destruct (_ =? _); discriminate. Qed.
+Theorem va_method_is_valid_spec m : va_method_is_valid m = true <-> m <= 255.
+Proof. unfold va_method_is_valid. rewrite N.leb_le. reflexivity. Qed.
+
+Theorem va_class_try_from_spec v : va_class_try_from v = if v <=? 3 then VOk v else VErr.
+Proof. reflexivity. Qed.
+Theorem va_class_try_from_np v : va_class_try_from v <> VPanic.
+Proof. unfold va_class_try_from. destruct (_ <=? _); discriminate. Qed.
+Theorem va_family_try_from_spec v : (va_family_try_from v = VOk v /\ (v = 1 \/ v = 2)) \/ (va_family_try_from v = VErr /\ v <> 1 /\ v <> 2).
+Proof. unfold va_family_try_from. destruct (N.eqb_spec v 1); [left; auto|]. destruct (N.eqb_spec v 2); [left; auto|right; auto]. Qed.
+Theorem va_family_try_from_np v : va_family_try_from v <> VPanic.
+Proof. unfold va_family_try_from. destruct (_ || _); discriminate. Qed.
+(* ------------------------------------------------------------------------------------------ ErrorCode *)
+Theorem va_error_code_new_spec code reason :
+  va_error_code_new code reason = if (300 <=? code) && (code <? 700) then VOk (code, reason) else VErr.
+Proof. reflexivity. Qed.
+Theorem va_error_code_new_accepts code reason : va_error_code_new code reason = VOk (code, reason) <-> 300 <= code < 700.
+Proof.
+  unfold va_error_code_new. destruct (N.leb_spec 300 code) as [L1|L1]; destruct (N.ltb_spec code 700) as [L2|L2]; cbn [andb]; split; intros X;
+    try reflexivity; try discriminate; lia.
+Qed.
+Theorem va_error_code_new_rejects code reason : code < 300 \/ 700 <= code -> va_error_code_new code reason = VErr.
+Proof.
+  intros X. unfold va_error_code_new. destruct (N.leb_spec 300 code) as [L1|L1]; destruct (N.ltb_spec code 700) as [L2|L2]; cbn [andb]; try reflexivity; lia.
+Qed.
+(* the accessors on any value the constructor (or the decoder) can build *)
+Theorem va_ec_accessors code : 300 <= code < 700 ->
+  va_ec_number code = VOk (code mod 100) /\ va_ec_class code = VOk (code / 100) /\ (code / 100) * 100 + code mod 100 = code /\
+  3 <= code / 100 <= 6 /\ code mod 100 <= 99.
+Proof.
+  intros H. unfold va_ec_class, va_ec_number, va_u8_unwrap, va_sub.
+  assert (N1 : (255 <? code mod 100) = false) by (apply N.ltb_ge; lia). rewrite N1. cbn [av_bind].
+  assert (N2 : (code <? code mod 100) = false) by (apply N.ltb_ge; lia). rewrite N2. cbn [av_bind].
+  assert (N3 : (255 <? (code - code mod 100) / 100) = false) by (apply N.ltb_ge; lia). rewrite N3.
+  repeat split; try lia. f_equal. lia.
+Qed.
+Theorem va_error_code_view_np code reason : va_error_code_view code reason <> VPanic.
+Proof.
+  unfold va_error_code_view. apply va_bind_np.
+  - unfold va_error_code_new. destruct (_ && _); discriminate.
+  - intros [c r] E. cbn [fst snd]. unfold va_error_code_new in E. destruct ((300 <=? code) && (code <? 700)) eqn:G; [|discriminate].
+    injection E as <- <-. apply andb_prop in G as [G1 G2]. apply N.leb_le in G1. apply N.ltb_lt in G2.
+    destruct (va_ec_accessors code (conj G1 G2)) as (-> & -> & _). cbn [av_bind]. discriminate.
+Qed.
+(* outside the range the accessor WOULD panic (why the constructor's range check carries C19): 25,600 <= code *)
+Example va_ec_class_unguarded : va_ec_class 25600 = VPanic. Proof. reflexivity. Qed.
+(* agreement with the codec model: ERROR-CODE is encoded from exactly these accessor values, and the decoder only builds
+   values the constructor accepts *)
+Theorem va_error_code_encodes code reason room c n : 300 <= code < 700 -> len reason <= 509 -> 4 + len reason <= room ->
+  va_ec_class code = VOk c -> va_ec_number code = VOk n -> av_enc_error_code code reason room = VOk ([0; 0; c; n] ++ reason).
+Proof.
+  intros H Hl Hr Ec En. destruct (va_ec_accessors code H) as (E1 & E2 & _). rewrite E1 in En. rewrite E2 in Ec.
+  injection En as <-. injection Ec as <-. rewrite enc_error_code_ok by lia. replace ((code - code mod 100) / 100) with (code / 100) by lia. reflexivity.
+Qed.
+Theorem va_error_code_decoded raw code reason : av_dec_error_code raw = VOk (code, reason) -> va_error_code_new code reason = VOk (code, reason).
+Proof. intros H. apply dec_error_code_inv in H. unfold va_error_code_new. rewrite H. reflexivity. Qed.
+
+(* ------------------------------------------------------------------------------------------ bounded integers *)
+Theorem va_icmp_type_new_spec v : va_icmp_type_new v = if v <=? 127 then VOk v else VErr. Proof. reflexivity. Qed.
+Theorem va_icmp_code_new_spec v : va_icmp_code_new v = if v <=? 511 then VOk v else VErr. Proof. reflexivity. Qed.
+Theorem va_icmp_new_np t c : va_icmp_type_new t <> VPanic /\ va_icmp_code_new c <> VPanic.
+Proof. unfold va_icmp_type_new, va_icmp_code_new. split; destruct (_ <=? _); discriminate. Qed.
+(* the values the ICMP codec accepts are the ones the bounded constructors build *)
+Theorem va_icmp_wf t c d : av_wf 0x8004 (AvIcmp t c d) = true -> va_icmp_type_new t = VOk t /\ va_icmp_code_new c = VOk c.
+Proof.
+  intros H. change (av_wf 0x8004 (AvIcmp t c d)) with ((t <=? 127) && (c <=? 511) && bytes_ok d && (len d =? 4)) in H.
+  apply andb_prop in H as [H _]. apply andb_prop in H as [H _]. apply andb_prop in H as [H1 H2].
+  unfold va_icmp_type_new, va_icmp_code_new. rewrite H1, H2. auto.
+Qed.
+
+Theorem va_algid_roundtrip v : va_algid_to (va_algid_from v) = v.
+Proof.
+  unfold va_algid_from. destruct (N.eqb_spec v 0) as [->|N0']; [reflexivity|].
+  destruct (N.eqb_spec v 1) as [->|N1]; [reflexivity|]. destruct (N.eqb_spec v 2) as [->|N2]; reflexivity.
+Qed.
+Theorem va_algid_tags v : fst (va_algid_from v) = (if v =? 0 then 0 else if v =? 1 then 1 else if v =? 2 then 2 else 3).
+Proof. unfold va_algid_from. destruct (v =? 0); [reflexivity|]. destruct (v =? 1); [reflexivity|]. destruct (v =? 2); reflexivity. Qed.
+
+Theorem va_attrtype_spec v : va_attrtype v = (v, v <? 32768, 32768 <=? v).
+Proof. unfold va_attrtype. f_equal. destruct (N.ltb_spec v 32768); destruct (N.leb_spec 32768 v); try reflexivity; lia. Qed.
+
+Theorem va_change_request_roundtrip b : b = 0 \/ b = 2 \/ b = 4 \/ b = 6 -> va_change_request_flags (va_change_request_new (Some b)) = b.
+Proof. intros [E|[E|[E|E]]]; subst b; reflexivity. Qed.
+Theorem va_change_request_none : va_change_request_flags (va_change_request_new None) = 0. Proof. reflexivity. Qed.
+
+(* common::padding: no underflow, and it is the `pad` of the codec models *)
+Lemma land3_mod4 n : N.land n 3 = n mod 4.
+Proof. change 3 with (N.ones 2). rewrite N.land_ones. reflexivity. Qed.
+Theorem va_padding_spec n : va_padding n = VOk (pad n).
+Proof.
+  unfold va_padding, va_sub. rewrite !land3_mod4.
+  assert (E : (4 <? n mod 4) = false) by (apply N.ltb_ge; lia). rewrite E. cbn [av_bind]. rewrite land3_mod4. reflexivity.
+Qed.
+Theorem va_padding_np n : va_padding n <> VPanic.
+Proof. rewrite va_padding_spec. discriminate. Qed.
+
+(* ------------------------------------------------------------------------------------------ fixed-size values *)
+Theorem va_fixed_from_exact n b : (len b = n -> va_fixed_from n b = VOk b) /\ (len b <> n -> va_fixed_from n b = VErr).
+Proof. unfold va_fixed_from. split; [apply va_array_from_slice_exact|apply va_array_from_slice_other]. Qed.
+Theorem va_fixed_from_np n b : va_fixed_from n b <> VPanic.
+Proof. apply va_array_from_slice_np. Qed.
+
+Theorem va_fingerprint_from_ok b : len b = 4 -> va_fingerprint_from b = VOk (N.lxor (av_rd_n 0 b) 0x5354554e).
+Proof.
+  intros H. unfold va_fingerprint_from, av_dec_u32. destruct (N.ltb_spec (len b) 4); [lia|].
+  rewrite av_to_ok by lia. cbn [av_bind]. rewrite av_rd32_ok by (rewrite len_take; lia).
+  cbn [va_unwrap av_bind]. rewrite !(take_len_eq 4 b H). reflexivity.
+Qed.
+Theorem va_fingerprint_from_np b : len b = 4 -> va_fingerprint_from b <> VPanic.
+Proof. intros H. rewrite va_fingerprint_from_ok by exact H. discriminate. Qed.
+(* the `expect` is a real panic site: only the array type of the argument keeps it unreachable *)
+Theorem va_fingerprint_from_short b : len b < 4 -> va_fingerprint_from b = VPanic.
+Proof. intros H. unfold va_fingerprint_from, av_dec_u32. destruct (N.ltb_spec (len b) 4); [reflexivity|lia]. Qed.
+(* the value stored is the one the FINGERPRINT decoder of the codec model produces *)
+Theorem va_fingerprint_codec hdr b c : va_fingerprint_from b = VOk c -> av_dec_kind AvkFp hdr b = VOk (AvFp c).
+Proof.
+  unfold va_fingerprint_from. cbn [av_dec_kind]. destruct (av_dec_u32 b); cbn [va_unwrap av_bind]; try discriminate.
+  intros E. injection E as <-. reflexivity.
+Qed.
+Theorem va_fixed_codec_mi hdr b : len b = 20 -> va_fixed_from 20 b = VOk b /\ av_dec_kind AvkMI hdr b = VOk (AvMI b).
+Proof. intros H. split; [apply va_fixed_from_exact; exact H|apply dec_mi_exact; exact H]. Qed.
+Theorem va_fixed_codec_sha hdr b : len b = 32 -> va_fixed_from 32 b = VOk b /\ av_dec_kind AvkSha hdr b = VOk (AvSha b).
+Proof. intros H. split; [apply va_fixed_from_exact; exact H|apply dec_sha_exact; exact H]. Qed.
+
+Theorem va_cookie_eq_np b : len b = 4 -> va_cookie_eq b <> VPanic.
+Proof. intros H. unfold va_cookie_eq. rewrite av_rd32_ok by lia. discriminate. Qed.
+Theorem va_cookie_eq_magic : va_cookie_eq av_cookie = VOk true. Proof. reflexivity. Qed.
+
+Lemma len_hex_upper b : len (va_hex_upper b) = 2 * len b.
+Proof. induction b as [|x b IH]; [reflexivity|]. cbn [va_hex_upper flat_map app]. fold (va_hex_upper b). rewrite !len_cons, IH. lia. Qed.
+Theorem va_txid_display_len b : len b = 12 -> len (va_txid_display b) = 43.
+Proof. intros H. unfold va_txid_display. rewrite !len_app, len_hex_upper, H. reflexivity. Qed.
+
+(* ------------------------------------------------------------------------------------------ MessageHeader *)
+Theorem va_header_try_from_np b : va_header_try_from b <> VPanic.
+Proof.
+  unfold va_header_try_from. destruct (N.ltb_spec (len b) 20); [discriminate|].
+  rewrite av_to_ok by lia. cbn [av_bind].
+  destruct (av_rd16_ok (take 2 b)) as (t & ->); [rewrite len_take; lia|]. cbn [av_bind].
+  destruct (255 <? _); [discriminate|]. destruct (negb _); [discriminate|].
+  rewrite av_slice_ok by lia. cbn [av_bind].
+  destruct (av_rd16_ok (take (4 - 2) (drop 2 b))) as (l & ->); [rewrite len_slice; lia|]. cbn [av_bind].
+  rewrite av_slice_ok by lia. cbn [av_bind].
+  destruct (negb _); [discriminate|]. destruct (negb _); [discriminate|].
+  rewrite av_slice_ok by lia. cbn [av_bind]. destruct (negb _); discriminate.
+Qed.
+(* the same header test as the one the XOR address codecs run (AttrValue.av_dec_header) *)
+Theorem va_header_agrees b :
+  (forall t l x, va_header_try_from b = VOk (t, l, x) -> av_dec_header b = VOk x) /\
+  (forall x, av_dec_header b = VOk x -> exists t l, va_header_try_from b = VOk (t, l, x)).
+Proof.
+  unfold va_header_try_from, av_dec_header. destruct (N.ltb_spec (len b) 20) as [L20|L20].
+  { split; [intros t l x E|intros x E]; discriminate. }
+  rewrite av_to_ok by lia. cbn [av_bind].
+  destruct (av_rd16_ok (take 2 b)) as (t & ->); [rewrite len_take; lia|]. cbn [av_bind].
+  assert (B : (255 <? t / 16384) = true -> negb (t / 16384 =? 0) = true).
+  { intros X. apply N.ltb_lt in X. destruct (N.eqb_spec (t / 16384) 0); [lia|reflexivity]. }
+  destruct (255 <? t / 16384) eqn:E255.
+  { rewrite (B eq_refl). split; [intros ? ? ? E|intros x E]; discriminate. }
+  destruct (negb (t / 16384 =? 0)).
+  { split; [intros ? ? ? E|intros x E]; discriminate. }
+  rewrite !av_slice_ok by lia. cbn [av_bind].
+  destruct (av_rd16_ok (take (4 - 2) (drop 2 b))) as (l & ->); [rewrite len_slice; lia|]. cbn [av_bind].
+  rewrite (len_slice b 4 8) by lia. rewrite (len_slice b 8 20) by lia.
+  change (8 - 4 =? 4) with true. change (20 - 8 =? 12) with true. cbn [negb].
+  destruct (negb (av_bytes_eqb _ av_cookie)).
+  { split; [intros ? ? ? E|intros x E]; discriminate. }
+  split.
+  - intros t' l' x E. injection E as _ _ <-. reflexivity.
+  - intros x E. injection E as <-. do 2 eexists. reflexivity.
+Qed.
+(* ------------------------------------------------------------------------------------------ string constructors *)
+Theorem va_nonce_new_np s : va_nonce_new s <> VPanic.
+Proof.
+  unfold va_nonce_new, ctor_quoted. destruct (av_utf8 s) as [cps|] eqn:E; [|discriminate].
+  pose proof (av_formatted_np s cps E) as H. destruct (av_formatted s cps); try discriminate; [|congruence].
+  destruct (509 <? len a); discriminate.
+Qed.
+Theorem va_nonce_new_len s q : va_nonce_new s = VOk q -> len q <= 509.
+Proof.
+  unfold va_nonce_new, ctor_quoted. destruct (av_utf8 s) as [cps|]; [|discriminate].
+  destruct (av_formatted s cps); try discriminate. destruct (N.ltb_spec 509 (len a)); [discriminate|].
+  intros E. injection E as <-. assumption.
+Qed.
+Theorem va_realm_new_np s : va_realm_new s <> VPanic.
+Proof.
+  unfold va_realm_new, ctor_realm. pose proof (av_precis_np s) as H. destruct (av_precis s); try discriminate; [|congruence].
+  apply va_nonce_new_np.
+Qed.
+Theorem va_text_new_spec max s : va_text_new max s = if len s <=? max then VOk s else VErr.
+Proof. unfold va_text_new. destruct (N.ltb_spec max (len s)); destruct (N.leb_spec (len s) max); try reflexivity; lia. Qed.
+Theorem va_text_new_np max s : va_text_new max s <> VPanic.
+Proof. unfold va_text_new. destruct (_ <? _); discriminate. Qed.
+Theorem va_username_new_np s : va_username_new s <> VPanic.
+Proof.
+  unfold va_username_new. apply va_bind_np; [apply av_precis_np|]. intros n _. destruct (_ <? _); discriminate.
+Qed.
+(* what the constructor accepts is what the USERNAME codec round-trips (AttrValue.av_wf) *)
+Theorem va_username_new_wf s : av_ascii_print s = true -> 0 < len s -> len s < 509 -> va_username_new s = VOk s /\ av_wf 6 (AvUser s) = true.
+Proof.
+  intros Ha H0 Hl. split.
+  - unfold va_username_new, av_precis. destruct s as [|x s]; [rewrite len_nil in H0; lia|].
+    assert (E1 : existsb av_is_ctl (x :: s) = false).
+    { apply (existsb_false_of_forallb (fun b => (0x20 <=? b) && (b <=? 0x7E))); [|exact Ha].
+      intros b Hb. apply andb_prop in Hb as [B1 B2]. apply N.leb_le in B1, B2. unfold av_is_ctl.
+      destruct (N.ltb_spec b 0x20); [lia|]. destruct (N.eqb_spec b 0x7F); [lia|reflexivity]. }
+    assert (E2 : existsb (fun b => 0x80 <=? b) (x :: s) = false).
+    { apply (existsb_false_of_forallb (fun b => (0x20 <=? b) && (b <=? 0x7E))); [|exact Ha].
+      intros b Hb. apply andb_prop in Hb as [B1 B2]. apply N.leb_le in B1, B2. destruct (N.leb_spec 0x80 b); [lia|reflexivity]. }
+    rewrite E1, E2. cbn [av_bind]. destruct (N.ltb_spec (len (x :: s)) 509); [reflexivity|lia].
+  - change (av_wf 6 (AvUser s)) with (av_ascii_print s && (0 <? len s) && (len s <? 509)). rewrite Ha.
+    destruct (N.ltb_spec 0 (len s)); [|lia]. destruct (N.ltb_spec (len s) 509); [reflexivity|lia].
+Qed.
+Lemma len_sha256 m : len (sha256 m) = 32.
+Proof. unfold len. rewrite sha256_length. reflexivity. Qed.
+Theorem va_userhash_new_np n r : va_userhash_new n r <> VPanic.
+Proof.
+  unfold va_userhash_new. apply va_bind_np; [apply av_precis_np|]. intros n' _.
+  apply va_bind_np; [apply av_precis_np|]. intros r' _. destruct (negb _); [discriminate|apply va_array_from_slice_np].
+Qed.
+(* the two internal length tests never fail: an error can only come from the OpaqueString profile; the hash has 32 bytes *)
+Theorem va_userhash_new_spec n r :
+  va_userhash_new n r = vlet n' := av_precis n in vlet r' := av_precis r in VOk (sha256 (n' ++ [58] ++ r')).
+Proof.
+  unfold va_userhash_new. destruct (av_precis n) as [n'| | |]; cbn [av_bind]; try reflexivity.
+  destruct (av_precis r) as [r'| | |]; cbn [av_bind]; try reflexivity.
+  rewrite len_sha256. cbn [N.eqb negb]. change (32 =? 32) with true. cbn [negb].
+  apply va_array_from_slice_exact. apply len_sha256.
+Qed.
+
+(* MD5 produces 16 bytes (CryptoLen has SHA-1 / SHA-256 only) *)
+Lemma md5_round_len blk st i : length (md5_round blk st i) = length st.
+Proof.
+  unfold md5_round. destruct st as [|a [|b [|c [|d [|e r]]]]]; try reflexivity.
+  destruct (Nat.ltb i 16); [reflexivity|]. destruct (Nat.ltb i 32); [reflexivity|]. destruct (Nat.ltb i 48); reflexivity.
+Qed.
+Lemma fold_md5_round_len blk l : forall st, length (fold_left (md5_round blk) l st) = length st.
+Proof. induction l as [|x l IH]; intros st; cbn [fold_left]; [reflexivity|]. rewrite IH. apply md5_round_len. Qed.
+Lemma md5_compress_len h blk : length (md5_compress h blk) = length h.
+Proof. unfold md5_compress. rewrite map_length, combine_length, fold_md5_round_len. lia. Qed.
+Lemma fold_md5_compress_len l : forall h, length (fold_left md5_compress l h) = length h.
+Proof. induction l as [|x l IH]; intros h; cbn [fold_left]; [reflexivity|]. rewrite IH. apply md5_compress_len. Qed.
+Lemma md5_length m : length (md5 m) = 16%nat.
+Proof.
+  unfold md5. rewrite (flat_map_const_length _ 4) by (intros; unfold le_bytes; rewrite map_length, seq_length; reflexivity).
+  rewrite fold_md5_compress_len. reflexivity.
+Qed.
+
+Lemma precis_sp_np s : precis_sp s <> VPanic.
+Proof. unfold precis_sp. destruct (av_utf8 s); [|discriminate]. destruct (forallb _ _); [apply av_precis_np|discriminate]. Qed.
+Theorem va_key_short_term_np p : va_key_short_term p <> VPanic.
+Proof. apply precis_sp_np. Qed.
+Theorem va_key_long_term_np u r p a : va_key_long_term u r p a <> VPanic.
+Proof.
+  unfold va_key_long_term, lt_key. pose proof (precis_sp_np r) as Hr. destruct (precis_sp r); try discriminate; [|congruence].
+  pose proof (precis_sp_np p) as Hp. destruct (precis_sp p); try discriminate; [|congruence].
+  destruct (a =? 1); [discriminate|]. destruct (a =? 2); discriminate.
+Qed.
+(* a key exists only for MD5 (16 bytes) and SHA-256 (32 bytes) *)
+Theorem va_key_long_term_alg u r p a k : va_key_long_term u r p a = VOk k -> (a = 1 /\ len k = 16) \/ (a = 2 /\ len k = 32).
+Proof.
+  unfold va_key_long_term, lt_key. destruct (precis_sp r); try discriminate. destruct (precis_sp p); try discriminate.
+  destruct (N.eqb_spec a 1) as [->|N1].
+  - intros E. injection E as <-. left. split; [reflexivity|]. unfold len. rewrite md5_length. reflexivity.
+  - destruct (N.eqb_spec a 2) as [->|N2]; [|discriminate]. intros E. injection E as <-. right. split; [reflexivity|apply len_sha256].
+Qed.
+
+(* ------------------------------------------------------------------------------------------ nonce cookies *)
+Lemma va_b64_dec3_len l d : va_b64_dec3 l = Some d -> exists a b c, d = [a; b; c].
+Proof.
+  unfold va_b64_dec3. destruct l as [|c0 [|c1 [|c2 [|c3 [|? ?]]]]]; try discriminate.
+  destruct (va_b64_val c0), (va_b64_val c1), (va_b64_val c2), (va_b64_val c3); try discriminate.
+  intros E. injection E as <-. eauto.
+Qed.
+Lemma va_features_of_np l d : va_b64_dec3 l = Some d -> va_features_of d <> VPanic.
+Proof. intros H. destruct (va_b64_dec3_len l d H) as (a & b & c & ->). discriminate. Qed.
+Theorem va_security_features_np s : va_security_features s <> VPanic.
+Proof.
+  unfold va_security_features. destruct (negb _); [discriminate|]. destruct (va_str_get s 9 13) as [f|]; [|discriminate].
+  destruct (va_b64_dec3 f) as [d|] eqn:E; [|discriminate]. apply (va_features_of_np f d E).
+Qed.
+(* the pinned commit sliced the string: it panics exactly where `get` answers None, and agrees everywhere else *)
+Theorem va_security_features_d4_spec s :
+  (va_is_nonce_cookie s = true /\ va_str_get s 9 13 = None /\ va_security_features_d4 s = VPanic /\ va_security_features s = VErr)
+  \/ va_security_features_d4 s = va_security_features s.
+Proof.
+  unfold va_security_features_d4, va_security_features, va_str_index. destruct (va_is_nonce_cookie s); cbn [negb]; [|right; reflexivity].
+  destruct (va_str_get s 9 13); cbn [av_bind]; [right; reflexivity|left; auto].
+Qed.
+(* D4: "obMatJos2abc" followed by U+00C0 U+0080 (a grammatical nonce) -- byte 13 is the second byte of U+00C0 *)
+Example C19_nonce_slice_refuted_witness :
+  let s := va_cookie_header ++ [97; 98; 99; 0xC3; 0x80; 0xC2; 0x80] in
+  va_nonce_new s = VOk s /\ va_security_features_d4 s = VPanic /\ va_security_features s = VErr.
+Proof. vm_compute. repeat split. Qed.
+
+(* base64 of the model: decoding inverts encoding on every 24-bit value's first character (finite check of the alphabet) *)
+Lemma va_b64_val_char_all : forallb (fun i => match va_b64_val (va_b64_char i) with Some j => j =? i | None => false end)
+                                    (map N.of_nat (seq 0 64)) = true.
+Proof. vm_compute. reflexivity. Qed.
+Theorem va_b64_val_char i : i < 64 -> va_b64_val (va_b64_char i) = Some i.
+Proof.
+  intros H. pose proof va_b64_val_char_all as A. rewrite forallb_forall in A.
+  specialize (A i). destruct (va_b64_val (va_b64_char i)) as [j|].
+  - rewrite (proj1 (N.eqb_eq j i)); [reflexivity|]. apply A. apply in_map_iff. exists (N.to_nat i). split; [lia|]. apply in_seq. lia.
+  - assert (false = true) as X; [|discriminate X]. apply A. apply in_map_iff. exists (N.to_nat i). split; [lia|]. apply in_seq. lia.
+Qed.
+
+(* ------------------------------------------------------------------------------------------ lists *)
+Lemma existsb_eqb_true x (l:list N) : In x l -> existsb (N.eqb x) l = true.
+Proof. intros H. apply existsb_exists. exists x. split; [exact H|apply N.eqb_refl]. Qed.
+Lemma existsb_eqb_in x (l:list N) : existsb (N.eqb x) l = true -> In x l.
+Proof. intros H. apply existsb_exists in H as (y & Hy & E). apply N.eqb_eq in E. subst. exact Hy. Qed.
+
+Theorem va_ua_add_spec l x : (In x l /\ va_ua_add l x = l) \/ (~ In x l /\ va_ua_add l x = l ++ [x]).
+Proof.
+  unfold va_ua_add, av_ua_add. destruct (existsb (N.eqb x) l) eqn:E.
+  - left. split; [apply existsb_eqb_in; exact E|reflexivity].
+  - right. split; [|reflexivity]. intros H. apply existsb_eqb_true in H. congruence.
+Qed.
+Theorem va_ua_add_idempotent l x : va_ua_add (va_ua_add l x) x = va_ua_add l x.
+Proof.
+  destruct (va_ua_add_spec l x) as [[H ->]|[H ->]].
+  - destruct (va_ua_add_spec l x) as [[_ E]|[N _]]; [exact E|contradiction].
+  - destruct (va_ua_add_spec (l ++ [x]) x) as [[_ E]|[N _]]; [exact E|]. exfalso. apply N. apply in_or_app. right. left. reflexivity.
+Qed.
+(* order-preserving: the old elements stay where they are, a new one goes to the end *)
+Theorem va_ua_add_prefix l x : exists t, va_ua_add l x = l ++ t /\ (t = [] \/ t = [x]).
+Proof. destruct (va_ua_add_spec l x) as [[_ ->]|[_ ->]]; [exists []; rewrite app_nil_r; auto|exists [x]; auto]. Qed.
+Theorem va_ua_add_in l x y : In y (va_ua_add l x) <-> In y l \/ y = x.
+Proof.
+  destruct (va_ua_add_spec l x) as [[H ->]|[H ->]].
+  - split; [auto|]. intros [I| ->]; assumption.
+  - rewrite in_app_iff. cbn [In]. split; [intros [I|[E|[]]]; auto|intros [I|E]; auto].
+Qed.
+Lemma NoDup_snoc (l:list N) x : NoDup l -> ~ In x l -> NoDup (l ++ [x]).
+Proof.
+  induction l as [|y l IH]; intros Hn Hx; cbn [app]; [constructor; [intros []|constructor]|].
+  inversion Hn as [|? ? Hy Hn']; subst. constructor.
+  - intros I. apply in_app_or in I as [I|[E|[]]]; [contradiction|]. apply Hx. left. symmetry. exact E.
+  - apply IH; [exact Hn'|]. intros I. apply Hx. right. exact I.
+Qed.
+Theorem va_ua_add_nodup l x : NoDup l -> NoDup (va_ua_add l x).
+Proof. intros H. destruct (va_ua_add_spec l x) as [[_ ->]|[Nx ->]]; [exact H|apply NoDup_snoc; assumption]. Qed.
+
+(* From<&[u16]> = repeated add: no duplicates, the same members, first occurrences in their order *)
+Lemma va_ua_fold_spec : forall v acc, NoDup acc ->
+  NoDup (fold_left va_ua_add v acc) /\ (forall y, In y (fold_left va_ua_add v acc) <-> In y acc \/ In y v)
+  /\ exists t, fold_left va_ua_add v acc = acc ++ t.
+Proof.
+  induction v as [|x v IH]; intros acc Hn; cbn [fold_left].
+  - split; [exact Hn|]. split; [intros y; cbn [In]; tauto|exists []; rewrite app_nil_r; reflexivity].
+  - destruct (IH (va_ua_add acc x) (va_ua_add_nodup acc x Hn)) as (I1 & I2 & (t & I3)). split; [exact I1|]. split.
+    + intros y. rewrite I2, va_ua_add_in. cbn [In]. split; [intros [[A|A]|A]; auto|intros [A|[A|A]]; auto].
+    + destruct (va_ua_add_prefix acc x) as (t' & E & _). rewrite I3, E, <- app_assoc. eexists. reflexivity.
+Qed.
+Theorem va_ua_from_nodup v : NoDup (va_ua_from v).
+Proof. apply (va_ua_fold_spec v []). constructor. Qed.
+Theorem va_ua_from_in v y : In y (va_ua_from v) <-> In y v.
+Proof. destruct (va_ua_fold_spec v [] (NoDup_nil _)) as (_ & H & _). rewrite (H y). cbn [In]. tauto. Qed.
+Lemma va_ua_fold_nodup : forall v acc, NoDup v -> (forall x, In x v -> ~ In x acc) -> fold_left va_ua_add v acc = acc ++ v.
+Proof.
+  induction v as [|x v IH]; intros acc Hn Hd; cbn [fold_left]; [rewrite app_nil_r; reflexivity|].
+  inversion Hn as [|? ? Hx Hn']; subst.
+  destruct (va_ua_add_spec acc x) as [[I _]|[_ ->]]; [exfalso; apply (Hd x); [left; reflexivity|exact I]|].
+  rewrite IH; [rewrite <- app_assoc; reflexivity|exact Hn'|].
+  intros y Hy I. apply in_app_or in I as [I|[<-|[]]]; [apply (Hd y); [right; exact Hy|exact I]|]. apply Hx. exact Hy.
+Qed.
+(* a list without duplicates is kept as it is; hence from is idempotent *)
+Theorem va_ua_from_id v : NoDup v -> va_ua_from v = v.
+Proof. intros H. unfold va_ua_from. rewrite va_ua_fold_nodup; [reflexivity|exact H|intros x _ []]. Qed.
+Theorem va_ua_from_idempotent v : va_ua_from (va_ua_from v) = va_ua_from v.
+Proof. apply va_ua_from_id. apply va_ua_from_nodup. Qed.
+(* agreement with the codec model: decoding the encoding of ANY list of types gives the list From<&[u16]> builds *)
+Lemma va_dec_uattrs_fold : forall l acc, Forall (fun x => x < 65536) l ->
+  av_dec_uattrs (flat_map av_be16 l) acc = VOk (fold_left va_ua_add l acc).
+Proof.
+  induction l as [|x l IH]; intros acc Hf; [reflexivity|].
+  inversion Hf as [|? ? Hx Hf']; subst.
+  cbn [flat_map av_be16 av_be_n app av_dec_uattrs fold_left]. rewrite rd16_be16' by exact Hx. apply IH. exact Hf'.
+Qed.
+Theorem va_ua_from_codec hdr l : Forall (fun x => x < 65536) l ->
+  av_dec_kind AvkUAttrs hdr (flat_map av_be16 l) = VOk (AvUAttrs (va_ua_from l)).
+Proof.
+  intros Hf. cbn [av_dec_kind]. rewrite len_flat_be16.
+  replace (N.land (2 * len l) 1) with 0.
+  - guards. rewrite va_dec_uattrs_fold by exact Hf. reflexivity.
+  - change 1 with (N.ones 1). rewrite N.land_ones. change (2 ^ 1) with 2. lia.
+Qed.
+(* and the value it builds is one the codec round-trips *)
+Theorem va_ua_from_wf l : Forall (fun x => x < 65536) l -> av_wf 0x000A (AvUAttrs (va_ua_from l)) = true.
+Proof.
+  intros Hf. change (av_wf 0x000A (AvUAttrs (va_ua_from l))) with (forallb (fun x => x <? 65536) (va_ua_from l) && av_nodup (va_ua_from l)).
+  apply andb_true_intro. split.
+  - apply forallb_forall. intros x Hx. apply (proj1 (va_ua_from_in l x)) in Hx. rewrite Forall_forall in Hf. apply N.ltb_lt. apply Hf. exact Hx.
+  - pose proof (va_ua_from_nodup l) as Hn. induction Hn as [|x r Hx Hn IH]; [reflexivity|]. cbn [av_nodup].
+    rewrite existsb_eqb_false by exact Hx. exact IH.
+Qed.
+
+(* PasswordAlgorithms: add appends, nothing is dropped or reordered *)
+Lemma va_pa_fold : forall v acc, fold_left va_pa_add v acc = acc ++ v.
+Proof. induction v as [|x v IH]; intros acc; cbn [fold_left]; [rewrite app_nil_r; reflexivity|]. rewrite IH. unfold va_pa_add. rewrite <- app_assoc. reflexivity. Qed.
+Theorem va_pa_from_id v : va_pa_from v = v.
+Proof. unfold va_pa_from. apply va_pa_fold. Qed.
+
+(* ------------------------------------------------------------------------------------------ the numeric sweeps *)
+Theorem va_num_case_np fn v : va_num_case fn v <> VPanic.
+Proof.
+  unfold va_num_case.
+  destruct (fn =? 0). { apply va_bind_np; [apply va_msgtype_from_np|discriminate]. }
+  destruct (fn =? 1).
+  { apply va_bind_np; [apply va_method_try_from_np|]. intros m _. apply va_bind_np; [apply va_class_try_from_np|]. intros c _.
+    apply va_bind_np; [apply va_msgtype_from_np|discriminate]. }
+  destruct (fn =? 2). { apply va_bind_np; [apply va_method_try_from_np|discriminate]. }
+  destruct (fn =? 3). { apply va_bind_np; [apply va_class_try_from_np|discriminate]. }
+  destruct (fn =? 4). { apply va_bind_np; [apply va_family_try_from_np|discriminate]. }
+  destruct (fn =? 5). { discriminate. }
+  destruct (fn =? 6). { apply va_bind_np; [apply va_error_code_view_np|]. intros [[[a b] c] d] _. discriminate. }
+  destruct (fn =? 7). { apply va_bind_np; [apply va_icmp_new_np; exact 0|discriminate]. }
+  destruct (fn =? 8). { apply va_bind_np; [apply va_icmp_new_np; exact 0|discriminate]. }
+  destruct (fn =? 9). { destruct (va_attrtype v) as [[a r] o]. discriminate. }
+  destruct (fn =? 10). { discriminate. }
+  destruct (fn =? 11). { apply va_bind_np; [apply va_padding_np|discriminate]. }
+  destruct (fn =? 14). { discriminate. }
+  destruct (fn =? 15). { discriminate. }
+  destruct (fn =? 16). { discriminate. }
+  destruct (fn =? 17); discriminate.
+Qed.
+(* ------------------------------------------------------------------------------------------ nonce cookie round trip *)
+Theorem va_new_nonce_cookie_np value algs anon : va_new_nonce_cookie value algs anon <> VPanic.
+Proof.
+  unfold va_new_nonce_cookie. destruct algs, anon;
+    (set (r := av_to (av_be32 _) 3); vm_compute in r; subst r; cbn [av_bind]; apply va_nonce_new_np).
+Qed.
+
+Lemma utf8_ascii_app : forall P v, Forall (fun c => c < 0x80) P ->
+  av_utf8 (P ++ v) = match av_utf8 v with Some cs => Some (P ++ cs) | None => None end.
+Proof.
+  induction P as [|b P IH]; intros v F; cbn [app]; [destruct (av_utf8 v); reflexivity|].
+  inversion F as [|? ? Hb F']; subst. rewrite av_utf8_cons_eq.
+  destruct (N.ltb_spec b 0x80); [|lia]. rewrite IH by exact F'. destruct (av_utf8 v); reflexivity.
+Qed.
+Lemma utf8_len_le : forall n v cs, (length v <= n)%nat -> av_utf8 v = Some cs -> len cs <= len v.
+Proof.
+  induction n as [|n IH]; intros v cs Hn Hu.
+  - destruct v; [|cbn in Hn; lia]. cbn in Hu. injection Hu as <-. lia.
+  - destruct v as [|b0 r]; [cbn in Hu; injection Hu as <-; lia|].
+    destruct (av_utf8_cons_inv _ _ _ Hu) as (c & cs' & h & t & -> & Ht & Eh & Hh & _).
+    assert (Lt : len (b0 :: r) = len h + len t) by (rewrite Eh; apply len_app).
+    assert (Hl : (length t <= n)%nat).
+    { assert (length (b0 :: r) = (length h + length t)%nat) by (rewrite Eh; apply app_length).
+      unfold len in Hh. cbn [length] in *. lia. }
+    specialize (IH t cs' Hl Ht). rewrite len_cons. lia.
+Qed.
+Lemma skip_start_bound : forall a idx b p c b', av_skip_start idx (a ++ b) = Some p -> b = c :: b' -> av_removable c = false ->
+  p <= idx + len a.
+Proof.
+  induction a as [|x a IH]; intros idx b p c b' H Eb Hc.
+  - cbn [app] in H. subst b. cbn [av_skip_start] in H. rewrite Hc in H. injection H as <-. rewrite len_nil. lia.
+  - cbn [app av_skip_start] in H. rewrite len_cons. destruct (av_removable x).
+    + specialize (IH _ _ _ _ _ H Eb Hc). lia.
+    + injection H as <-. lia.
+Qed.
+Lemma take_app_ge (P v:bytes) k : len P <= k -> take k (P ++ v) = P ++ take (k - len P) v.
+Proof.
+  intros H. unfold take, len in *. rewrite firstn_app. rewrite firstn_all2 by lia. f_equal. f_equal. lia.
+Qed.
+Lemma lead_ok_take v j : lead_ok v = true -> lead_ok (take j v) = true.
+Proof. unfold take. destruct v as [|x v]; [rewrite firstn_nil; auto|]. destruct (N.to_nat j); [reflexivity|]. cbn [firstn lead_ok]. auto. Qed.
+
+(* a constructor input that starts with 13 ASCII characters, the first and the last of which are not trimmed, keeps them *)
+Lemma ctor_quoted_prefix P p0 P' pl Pr v q :
+  P = p0 :: P' -> av_removable p0 = false -> rev P = pl :: Pr -> av_removable pl = false -> Forall (fun c => c < 0x80) P ->
+  ctor_quoted (P ++ v) = VOk q -> exists w, q = P ++ w /\ lead_ok w = true.
+Proof.
+  intros EP Hp0 Erev Hpl FP. unfold ctor_quoted. rewrite utf8_ascii_app by exact FP.
+  destruct (av_utf8 v) as [cs|] eqn:Ev; [|discriminate].
+  assert (Hu : av_utf8 (P ++ v) = Some (P ++ cs)) by (rewrite utf8_ascii_app by exact FP; rewrite Ev; reflexivity).
+  assert (Lv : lead_ok v = true) by (apply utf8_lead_ok; congruence).
+  unfold av_formatted. destruct (_ && _); [discriminate|].
+  assert (Es : av_skip_start 0 (P ++ cs) = Some 0) by (rewrite EP; cbn [app av_skip_start]; rewrite Hp0; reflexivity).
+  rewrite Es. unfold av_str_from. change (av_is_boundary (P ++ v) 0) with true. cbn [av_bind]. rewrite drop_0.
+  rewrite (av_chars_some _ _ Hu).
+  destruct (av_skip_trail (P ++ cs)) as [p|] eqn:Et.
+  - destruct (skip_trail_bytes _ _ _ Hu Et) as (T1 & T2).
+    destruct (N.ltb_spec (len (P ++ v)) p); [lia|]. unfold av_str_to. rewrite T2.
+    assert (Hp : p <= len v).
+    { unfold av_skip_trail in Et. rewrite rev_app_distr in Et.
+      pose proof (skip_start_bound _ _ _ _ _ _ Et Erev Hpl) as B. rewrite len_rev in B.
+      pose proof (utf8_len_le _ _ _ (le_n _) Ev). lia. }
+    destruct (509 <? _); [discriminate|]. intros E. injection E as <-.
+    rewrite len_app in *. rewrite take_app_ge by lia. eexists. split; [reflexivity|]. apply lead_ok_take. exact Lv.
+  - destruct (509 <? _); [discriminate|]. intros E. injection E as <-. exists v. auto.
+Qed.
+
+Definition cookie_prefix (algs anon:bool) : bytes :=
+  va_cookie_header ++ va_b64_encode (take 3 (av_be32 ((if algs then 2147483648 else 0) + (if anon then 1073741824 else 0)))).
+Lemma va_new_nonce_cookie_eq value algs anon : va_new_nonce_cookie value algs anon = ctor_quoted (cookie_prefix algs anon ++ value).
+Proof.
+  unfold va_new_nonce_cookie, cookie_prefix, va_nonce_new. rewrite av_to_ok by (destruct algs, anon; vm_compute; discriminate).
+  cbn [av_bind]. rewrite <- app_assoc. reflexivity.
+Qed.
+
+(* Nonce::new_nonce_cookie(value, flags), whenever it succeeds, builds a nonce cookie whose security features are `flags` *)
+Theorem va_nonce_cookie_roundtrip value algs anon q :
+  va_new_nonce_cookie value algs anon = VOk q -> va_is_nonce_cookie q = true /\ va_security_features q = VOk (algs, anon).
+Proof.
+  rewrite va_new_nonce_cookie_eq. intros H.
+  assert (E : exists w, q = cookie_prefix algs anon ++ w /\ lead_ok w = true).
+  { destruct algs, anon;
+      (eapply ctor_quoted_prefix; [vm_compute; reflexivity|reflexivity|vm_compute; reflexivity|reflexivity| |exact H];
+       vm_compute; repeat constructor). }
+  destruct E as (w & -> & Lw).
+  assert (L13 : len (cookie_prefix algs anon) = 13) by (destruct algs, anon; reflexivity).
+  assert (C : va_is_nonce_cookie (cookie_prefix algs anon ++ w) = true).
+  { unfold va_is_nonce_cookie. apply andb_true_intro. split.
+    - destruct algs, anon; vm_compute; reflexivity.
+    - apply N.leb_le. rewrite len_app, L13. lia. }
+  split; [exact C|]. unfold va_security_features. rewrite C. cbn [negb].
+  assert (B13 : av_is_boundary (cookie_prefix algs anon ++ w) 13 = true).
+  { apply boundary_char; [rewrite len_app; lia|]. rewrite <- L13, drop_len_app. exact Lw. }
+  unfold va_str_get. rewrite B13, len_app, L13.
+  destruct (N.leb_spec 13 (13 + len w)); [|lia]. cbn [andb N.leb].
+  assert (B9 : av_is_boundary (cookie_prefix algs anon ++ w) 9 = true).
+  { apply boundary_char; [rewrite len_app; lia|]. destruct algs, anon; reflexivity. }
+  rewrite B9. change (9 <=? 13) with true. cbn [andb].
+  destruct algs, anon; reflexivity.
+Qed.
